@@ -1044,7 +1044,10 @@ class Scanner:
             return out
         if isinstance(s, ast.Raise):
             out = self.expr(s.exc, env) if s.exc is not None else []
-            return out + [("abort", fnq)]
+            ex = s.exc.func if isinstance(s.exc, ast.Call) else s.exc
+            cls = "reraise" if ex is None else (ex.id if isinstance(ex, ast.Name) else
+                                                ex.attr if isinstance(ex, ast.Attribute) else "?")
+            return out + [("abort", fnq + "!" + cls)]
         if isinstance(s, ast.For) and self.net_access(s.iter, env) == "component_list":
             if not isinstance(s.target, ast.Name) or s.orelse:
                 raise ScanError("%s line %d: unsupported component loop" % (fnq, s.lineno))
@@ -1256,6 +1259,80 @@ def py_scan(tr, defined, allowed, problems, dp=None, cur=None):
     return d, dp
 
 
+# --------------------------------------------------------------------------------------------- leave-behind analysis
+def _then(x, y):
+    """path effects of x followed by y; effects: 'U' untouched, 'W' written, 'D' deleted"""
+    out = set()
+    for a in x:
+        for b in y:
+            out.add(a if b == "U" else b)
+    return out
+
+
+def py_eff(tr, key, des):
+    """mirror of C12.Model.eff: (effects on `key` at normal exits, effects at raise sites s with des(s))"""
+    n, ab = {"U"}, set()
+    for e in tr:
+        k = e[0]
+        en, ea = {"U"}, set()
+        if k in ("W", "M", "AW"):
+            en = {"W"} if e[1] == key else {"U"}
+        elif k == "D":
+            en = {"D"} if e[1] == key else {"U"}
+        elif k == "C":
+            en = {"W"} if e[1] == key else {"U"}
+        elif k == "abort":
+            en, ea = set(), ({"U"} if des(e[1]) else set())
+        elif k == "alt":
+            en = set()
+            for a in e[1]:
+                x, y = py_eff(a, key, des)
+                en |= x
+                ea |= y
+        elif k == "loop":
+            x, y = py_eff(e[1], key, des)
+            en = {"U"} | x
+            ea = _then(en, y)
+        elif k == "comp":
+            en = {"U"}
+            for _, a in e[1]:
+                x, y = py_eff(a, key, des)
+                ea |= _then(en, y)
+                en = _then(en, {"U"} | x)
+        elif k == "phase":
+            en, ea = py_eff(e[2], key, des)
+        ab |= _then(n, ea)
+        n = _then(n, en)
+    return n, ab
+
+
+def raise_sites(tr, acc=None):
+    acc = set() if acc is None else acc
+    for e in tr:
+        if e[0] == "abort":
+            acc.add(e[1])
+        elif e[0] == "alt":
+            for a in e[1]:
+                raise_sites(a, acc)
+        elif e[0] == "loop":
+            raise_sites(e[1], acc)
+        elif e[0] == "phase":
+            raise_sites(e[2], acc)
+        elif e[0] == "comp":
+            for _, a in e[1]:
+                raise_sites(a, acc)
+    return acc
+
+
+STAGE_FAILURE_SITES = ["hydraulics!PipeflowNotConverged", "bidirectional!PipeflowNotConverged",
+                       "heat_transfer!PipeflowNotConverged"]
+
+
+def leaky_sites(tr, key="_internal_data"):
+    """raise sites at which this call may still hold a value it wrote itself into `key`"""
+    return sorted(s for s in raise_sites(tr) if "W" in py_eff(tr, key, lambda x, s=s: x == s)[1])
+
+
 # --------------------------------------------------------------------------------------------- driver
 def scan_all(src=None):
     sc = Scanner(src)
@@ -1405,7 +1482,7 @@ def coq_prog(tr, fnidx, clsidx, indent=2):
         if k == "M":
             return "Seq (Rd %d %s) (Wr %d %s)" % (fnidx[e[2]], cstr(e[1]), fnidx[e[2]], cstr(e[1]))
         if k == "D":
-            return "Wr %d %s" % (fnidx[e[2]], cstr(e[1]))
+            return "Del %d %s" % (fnidx[e[2]], cstr(e[1]))
         if k == "C":
             return "Cp %d %s %s" % (fnidx[e[3]], cstr(e[1]), cstr(e[2]))
         if k == "AW":
